@@ -478,6 +478,8 @@ const MD_UNTERMINATED: &[&str] = &[
     "1. a\n   - b\n     > c", "> - a\n> - b", "- ```\n  code", "- ```\n\t\tx", "> ```\n> \t\tx", "Term\n: definition", "---\ntitle: x\n---\ntext", "+++\na\n+++", "{#id .class}", "# h {#id}",
     // two words that are neighbours in the token list without whitespace between them (markup is not a token)
     "the*the*", "**very**very much", "teh[teh](x)", "is~~is~~ is", "a*a*a", "The **The** the*the* end.", "that_that_", "and<b>and</b>",
+    // raw HTML / code / link targets that contain non-ASCII characters (bytes != characters), at the end of the text
+    "All done <!-- à revoir -->", "The menu lists <span title=\"café\">", "<div>café</div>\n", "<!-- 😀 -->", "a <b>é</b>", "<é>", "`é😀`", "[a](http://é.x/😀)", "![é](é)", "```é\n😀", "<div>\né\n</div>",
     "a[^n]\n\n[^n]: teh note", "*a **b* c**", "_a_b_", "\u{0}", "a\u{0}b", "\r", "a\rb", "a\r\n\r\nb", "\u{feff}# h", "  \n  ", "\n\n\n", "\t", " \t \n",
 ];
 
@@ -587,6 +589,60 @@ fn ws_mutate(text: &str, r: &mut Rng) -> String {
     out
 }
 
+/// Replace ASCII letters by non-ASCII ones (2-, 3- and 4-byte characters), inside markup too: code that
+/// measures text in bytes where harper counts characters (raw HTML, code spans, link targets, comment
+/// leaders, …) places tokens past the end of the source on these.
+fn nonascii_mutate(text: &str, r: &mut Rng) -> String {
+    let mut out = String::new();
+    let mut changed = false;
+    for c in text.chars() {
+        if c.is_ascii_alphabetic() && r.chance(1, 3) {
+            out.push(*r.pick(&['é', 'à', 'ü', 'ß', 'ı', '漢', '😀', 'Ω']));
+            changed = true;
+        } else {
+            out.push(c);
+        }
+    }
+    if !changed {
+        out.push('é');
+    }
+    out
+}
+
+/// Text the condense passes of `Document::parse` merge into ONE token (ordinals `1st`, contractions,
+/// dotted initialisms, ellipses, …) with markup opened INSIDE it, so that the merged neighbours are not
+/// contiguous in the source — at the very start of the document and after other text.
+fn split_by_markup(fe: &str) -> Vec<String> {
+    let base = fe.split('+').next().unwrap();
+    let wrappers: &[(&str, &str)] = match base {
+        "plain" | "c:java" => return vec![],
+        "html" => &[("<b>", "</b>"), ("<sup>", "</sup>"), ("<i>", ""), ("<!-- x -->", "")],
+        "typst" => &[("*", "*"), ("_", "_"), ("#[", "]"), ("#emph[", "]"), ("/* x */", "")],
+        _ => &[("*", "*"), ("**", "**"), ("_", "_"), ("[", "](x)"), ("~~", "~~"), ("<sup>", "</sup>"), ("<!-- x -->", "")],
+    };
+    const MERGED: &[&str] = &["1st", "2nd", "3rd", "4th", "21st", "1,000th", "1.5th", "don't", "it's", "o'clock", "e.g.", "U.S.A.", "a.m.", "...", "$5", "5%", "a--b", "x.y.z", "\"a\"", "''"];
+    let comment = base.starts_with("c:");
+    let mut v = vec![];
+    for (wi, w) in MERGED.iter().enumerate() {
+        let cs: Vec<char> = w.chars().collect();
+        for k in 1..cs.len() {
+            for (xi, (open, close)) in wrappers.iter().enumerate() {
+                // comment front-ends (22 languages) get a thinner sample
+                if comment && (wi + k + xi) % 4 != 0 {
+                    continue;
+                }
+                let head: String = cs[..k].iter().collect();
+                let tail: String = cs[k..].iter().collect();
+                let core = format!("{head}{open}{tail}{close}");
+                for t in [core.clone(), format!("{core} place goes to her."), format!("The {core} one.")] {
+                    v.push(if comment { comment_wrap(&base[2..], &t, wi + k) } else { t });
+                }
+            }
+        }
+    }
+    v
+}
+
 fn prefixes(text: &str) -> Vec<String> {
     let cs: Vec<char> = text.chars().collect();
     let mut out = vec![];
@@ -647,6 +703,18 @@ fn generate(a: &Args, r: &mut Rng) -> Vec<Case> {
                 push(&mut cases, fe, t.clone() + "\n", "unterminated", r, false);
                 push(&mut cases, fe, t + " ", "unterminated", r, false);
             }
+        }
+        // 1b. merged tokens (ordinals, contractions, initialisms, …) with markup opened inside them
+        for t in split_by_markup(fe) {
+            push(&mut cases, fe, t, "split-by-markup", r, false);
+        }
+        // 1c. non-ASCII variants of the unterminated markup (byte length != character count)
+        for t in unterminated_for(fe) {
+            if t == "f(1(1" && fe.starts_with("c:dart") {
+                continue; // F32: one witness of the Dart hang is enough (each costs 10 s and a core)
+            }
+            let m = nonascii_mutate(&t, r);
+            push(&mut cases, fe, m, "non-ascii-mutated", r, false);
         }
         // 2. generated documents
         let n_docs = if wrapped { a.scale(8, 120) } else { a.scale(30, 500) };
@@ -838,7 +906,7 @@ fn endangers_unguarded(c: &Case, o: &Outcome) -> bool {
 
 pub fn run(a: &Args, corpus: &[Value]) {
     let mut rep = Report::new(&a.out);
-    rep.rule = "documents: every front-end (plain, Markdown x2, HTML, Typst, LHS, git-commit, 22 comment languages; +CollapseIdentifiers / +IsolateEnglish wrappers) x {default, all rules, random} configuration x 4 dialects on generated documents (frontends::embed, gen::any_text, malformed stream), every prefix x {'', ' ', '\\n'} of a sample of them, unterminated markup per language and its prefixes, empty/whitespace-only input, 254-300-char words, astral characters; each under catch_unwind + panic-location hook + watchdog (10 s). pattern correspondence: random pattern trees over all public combinators x random token lists (incl. out-of-bounds spans) vs the extracted model; run_on_chunk via a custom PatternLinter; Mask glue via a recording inner parser; LHS masker via its parser. non-trivial = distinct (front-end, text) yielding >= 1 token, or distinct correspondence case".into();
+    rep.rule = "documents: every front-end (plain, Markdown x2, HTML, Typst, LHS, git-commit, 22 comment languages; +CollapseIdentifiers / +IsolateEnglish wrappers) x {default, all rules, random} configuration x 4 dialects on generated documents (frontends::embed, gen::any_text, malformed stream), every prefix x {'', ' ', '\\n'} of a sample of them, unterminated markup per language, its prefixes and a non-ASCII variant of each, merged tokens (ordinals, contractions, initialisms) split by markup, whitespace-mutated text, empty/whitespace-only input, 254-300-char words, astral characters; each under catch_unwind + panic-location hook + watchdog (10 s). pattern correspondence: random pattern trees over all public combinators x random token lists (incl. out-of-bounds spans) vs the extracted model; run_on_chunk via a custom PatternLinter; Mask glue via a recording inner parser; LHS masker via its parser. non-trivial = distinct (front-end, text) yielding >= 1 token, or distinct correspondence case".into();
     let threads = std::thread::available_parallelism().map(|n| n.get()).unwrap_or(8).min(16);
     let deadline = Duration::from_secs(10);
 
